@@ -388,7 +388,7 @@ def cache_4(ctx, rep, roles):
                         'pickle version), the grammar hash and a hash of the file path; writer and reader use the same '
                         'path expression and the writer truncates')
     prog = ctx.prog
-    g = prog.func(CACHE, '_get_hashed_path')
+    g = ctx.view(prog.func(CACHE, '_get_hashed_path'), keep=KEEP)      # a helper that builds the file name is read in place
     rets = [n for n in walk_own(g.node) if isinstance(n, ast.Return)]
     deps = set()
     for r in rets:
